@@ -4,7 +4,9 @@ import concurrent.futures as cf, json, os, shutil, subprocess
 from .. import common as C
 from ..prop import Check
 
-FAMILIES = [("nas_cipher", 300), ("nas_mac", 300), ("nas_protect", 200), ("nas_codec", 300), ("ngap_codec", 40), ("key_derive", 200), ("key_derive_shared", 300), ("milenage", 300), ("nas_cipher_aes", 2000), ("nas_mac_aes", 2000), ("nas_unprotect", 300), ("ngap_decode_errors", 300), ("ngap_decode_unknown_ie", 300)]
+FAMILIES = [("nas_cipher", 300), ("nas_mac", 300), ("nas_protect", 200), ("nas_codec", 300), ("ngap_codec", 40), ("key_derive", 200), ("key_derive_shared", 300), ("milenage", 300), ("nas_cipher_aes", 2000), ("nas_mac_aes", 2000), ("nas_unprotect", 300), ("ngap_decode_errors", 300), ("ngap_decode_unknown_ie", 300),
+            # more parties than any small fixed pool of slots: a bounded resource that is acquired twice shows as a hang
+            ("nas_cipher_aes", 150, 48), ("nas_protect", 60, 48)]
 
 
 def build_footprints():
@@ -46,10 +48,10 @@ class C20(Check):
         mult = 1 if self.tier == "quick" else 4
 
         def one(fi):
-            fam, iters = fi
+            fam, iters = fi[0], fi[1]
             d = C.scratch_dir("race")
             try:
-                case = {"family": fam, "goroutines": G, "iters": iters * mult, "deadline_s": 240 if self.tier == "quick" else 700}
+                case = {"family": fam, "goroutines": max(G, fi[2] if len(fi) > 2 else 0), "iters": iters * mult, "deadline_s": 240 if self.tier == "quick" else 700}
                 p = subprocess.run([race, "conc"], input=json.dumps(case) + "\n", cwd=d, stdout=subprocess.PIPE, stderr=subprocess.PIPE, text=True, timeout=900,
                                    env=dict(os.environ, GORACE="halt_on_error=0 exitcode=66"))
                 res = None
@@ -76,7 +78,7 @@ class C20(Check):
                                 "how_to_replay": "echo '%s' | .work/bin/harness_race conc" % json.dumps(case)})
         self.cov["runtime"] = rows
         self.cov["samples"].append({"runtime": rows[:3]})
-        self.cov["rule"] = ("13 operation families x G goroutines x N calls each for its own UE, first sequentially then concurrently under the race detector; "
+        self.cov["rule"] = ("13 operation families (two of them also with 48 parties) x G goroutines x N calls each for its own UE, first sequentially then concurrently under the race detector; "
                             "distinct_nontrivial counts operation families")
         # at least two distinct cases for the evidence schema
         self._distinct.add("footprints")
